@@ -7,7 +7,7 @@ open Cppcheck.Wire Cppcheck.SevGate Cppcheck.Gen.SeverityGuards
      P <row> <mask>   can row <row> report under the option set <mask> for some environment with default flags? -> 1 | 0
                       (mask bit i = severity Sev.ofBit i, bit 9 = --inconclusive)
      V <row>          the per-row decisions the theorems of Props/C27.lean rest on:
-                      gateOk gateOkCli incOk refutesGate refutesInc                                   -> five 0/1 digits
+                      gateOk gateOkCli incOk posOk refutesGate refutesInc                             -> six 0/1 digits
      N                number of rows / flags                                                          -> "<rows> <nFlags>"
 -/
 namespace Driver.C27
@@ -27,7 +27,7 @@ def step (line : String) : String :=
     match i.toNat? with
     | some i =>
       match table[i]? with
-      | some r => boolStr (r.gateOk nFlags) ++ boolStr (r.gateOkCli nFlags) ++ boolStr (r.incOk nFlags) ++ boolStr r.refutesGate ++ boolStr r.refutesInc
+      | some r => boolStr (r.gateOk nFlags) ++ boolStr (r.gateOkCli nFlags) ++ boolStr (r.incOk nFlags) ++ boolStr (r.posOk nFlags) ++ boolStr r.refutesGate ++ boolStr r.refutesInc
       | none => "norow"
     | none => "bad"
   | ["N"] => toString table.size ++ " " ++ toString nFlags
